@@ -270,6 +270,8 @@ class Gen:
                 st = {"op": "gac", "pool": pool["idx"], "rex": r.random() < 0.5, "waiters": r.choice([0, 1, 2])}
             elif k == "reject":
                 st = self.reject(pool)
+            elif k == "ctor_neg":
+                st = {"op": "ctor_neg", "v": r.choice([-1, -2, -10]), "cls": pool["cls"]}
             elif k == "set_size":
                 st = {"op": "set_size", "pool": pool["idx"], "v": r.choice([-2, -1, 0, 1, 2, 3, 5, None])}
             if st is not None:
